@@ -368,6 +368,20 @@ theorem GoodKeys.length {ks vs : List Bytes} (hk : GoodKeys ks) (hl : vs.length 
       = 4 + ((ks.zip vs).map fun e => 8 + e.1.length + e.2.length).sum :=
   encMap_length (by rw [map_fst_zip hl]; exact hk.nodup)
 
+/-- maps built over DIFFERENT key sets never have the same encoding, whatever the values -/
+theorem encMap_zip_ne_of_keys {ks ks' vs vs' : List Bytes} (hk : GoodKeys ks) (hk' : GoodKeys ks')
+    (hl : vs.length = ks.length) (hl' : vs'.length = ks'.length) (hv : AllShort vs)
+    (hv' : AllShort vs') (hne : ¬ ks.Perm ks') : encMap (ks.zip vs) ≠ encMap (ks'.zip vs') := by
+  intro h
+  have hp := encMap_injective (by rw [map_fst_zip hl]; exact hk.nodup)
+    (by rw [map_fst_zip hl']; exact hk'.nodup)
+    (shortMap_zip hk.allShort (by have := hk.len; omega) hv)
+    (shortMap_zip hk'.allShort (by have := hk'.len; omega) hv') h
+  have := hp.map Prod.fst
+  rw [map_fst_zip hl, map_fst_zip hl'] at this
+  exact hne this
+
+
 def schnorrKeys : List Bytes := [tag "g", tag "public", tag "commitment", tag "context"]
 def cpKeys : List Bytes :=
   [tag "g1", tag "g2", tag "public1", tag "public2", tag "commitment1", tag "commitment2",
